@@ -187,3 +187,10 @@ pub fn v_string_eq(a: &String, b: &String) -> (r: bool)
 pub fn v_min_usize(a: usize, b: usize) -> (r: usize)
     ensures r == (if a <= b { a } else { b })
 { std::cmp::min(a, b) }
+
+// --- further std string functions: total, results unconstrained (so that edited code using them stays within reach)
+pub assume_specification[ String::truncate ](s: &mut String, new_len: usize);
+pub assume_specification[ str::trim_end ](s: &str) -> (r: &str);
+pub assume_specification[ str::trim_start ](s: &str) -> (r: &str);
+pub assume_specification[ str::trim ](s: &str) -> (r: &str);
+pub assume_specification[ str::to_lowercase ](s: &str) -> (r: String);
